@@ -216,6 +216,21 @@ def inject(s, vc_files):
                 pat, nth = split_nth(head.strip())
                 fn_names = names.split()
             m = code_mask(s)
+            if fn_names is not None and not re.search(r'#\d+$', top.arg.rsplit(':', 1)[0].strip()):
+                # pick the impl block that contains the named fns
+                cand = None
+                for k in range(len(list(find_code(s, m, pat)))):
+                    st, ls, bo, bc = item_span(s, m, pat, k)
+                    try:
+                        for fnm in fn_names:
+                            fn_span(s, m, fnm, bo, bc)
+                        cand = k
+                        break
+                    except Lost:
+                        continue
+                if cand is None:
+                    raise Lost('no impl block %s contains %s' % (pat, fn_names))
+                nth = cand
             st, ls, bo, bc = item_span(s, m, pat, nth)
             marker = '/*VS:%s:%d*/' % (os.path.basename(top.src), top.lineno)
             if fn_names is not None:
